@@ -1056,8 +1056,14 @@ func (c *compiler) evalStatement(node ast.Statement) (interface{}, error) {
 	switch t := node.(type) {
 	case *ast.ExpressionStatement:
 		s, err := c.evalExpression(t.Expression)
-		switch s.(type) {
-		case exitBlockStatment, ast.Printable, template.HTML:
+		if _, ok := t.Expression.(*ast.HTMLLiteral); ok {
+			// literal text of the block
+			return s, err
+		}
+
+		// any other expression statement is a silent tag: its value is
+		// dropped whatever its type, only control flow passes through
+		if _, ok := s.(exitBlockStatment); ok {
 			return s, err
 		}
 
